@@ -159,7 +159,8 @@ def cases(draw, tier, mode, wide=False):
         cfgs.append({'unit': du, 'period': [float(pt) if '.' in pt else int(pt), pun], 'choices': draw(st.lists(st.integers(0, 11), min_size=12, max_size=12)),
                      'uniform': draw(st.sampled_from([None, None, 's', 'ms', 'us', 'ns'])),
                      # None: one requirement; dup: the same requirement text written twice (two assertions); reparse: parse() twice
-                     'layout': draw(st.sampled_from([None, None, None, 'dup', 'reparse']))})
+                     'layout': draw(st.sampled_from([None, None, None, 'dup', 'reparse'])),
+                     'bare_period': draw(st.booleans())})
     n = draw(F.trace_lengths(10))
     if mode == 'pastified':
         h = F.horizon(f) or 0
@@ -183,6 +184,9 @@ def time_column(n, period_ns, unit):
 def run_mode(mode, text, vs, tr, cfg, period_ns):
     n = len(tr[vs[0]])
     kw = dict(unit=cfg['unit'], period=(cfg['period'][0], cfg['period'][1], 0.1))
+    if cfg.get('bare_period') and cfg['period'][1] == 's':
+        # set_sampling_period(2): the unit argument is left to its documented default (seconds), whatever the default unit of bounds
+        kw['period'] = (cfg['period'][0],)
     if cfg.get('layout') == 'reparse':
         kw['parse'] = 2
     tcol = time_column(n, period_ns, cfg['unit'])
@@ -263,7 +267,9 @@ def reject_cases(draw, tier):
     # (the width of the window stays a multiple of the period)
     shift = draw(st.sampled_from(['upper', 'upper', 'lower', 'both', 'both']))
     return {'formula': f, 'vars': vs, 'trace': tr, 'period': [pv, pu], 'unit': du, 'which': which, 'off': [off.numerator, off.denominator], 'mode': mode,
-            'shift': shift}
+            'shift': shift,
+            # the bound that leaves the grid is written as a declared constant (declare_const or "const float kb = ..." in the text)
+            'via_const': draw(st.sampled_from([None, None, 'api', 'text']))}
 
 
 def check_reject(case):
@@ -308,15 +314,26 @@ def check_reject(case):
             tb = tb or (decimal_text(db / U[u], 24) and (decimal_text(db / U[u], 24), u))
         if not ta or not tb:
             return None
+        if idx == target and case.get('via_const'):
+            constval[0] = tb[0]
+            return '[%s%s,kb %s]' % (ta[0], ta[1], tb[1])
         return '[%s%s,%s%s]' % (ta[0], ta[1], tb[0], tb[1])
+    constval = [None]
     try:
         text = 'out = ' + F.show(f, bp)
     except TypeError:
         return DISCARD('unprintable', labels)
     if 'None' in text:
         return DISCARD('unprintable', labels)
+    consts = None
+    if constval[0] is not None:
+        labels.append('bound-through-constant:' + case['via_const'])
+        if case['via_const'] == 'api':
+            consts = [('kb', 'float', constval[0])]
+        else:
+            text = 'const float kb = %s\n%s' % (constval[0], text)
     # show() visits timed nodes in pre-order, the same order as `timed`
-    kw = dict(unit=case['unit'], period=(pv, pu, 0.1))
+    kw = dict(unit=case['unit'], period=(pv, pu, 0.1), consts=consts)
     w = {v: tr[v] for v in feed}
     n = len(tr[vs[0]])
     tcol = time_column(n, pn, case['unit'])
